@@ -406,6 +406,9 @@ func runC04(w *World, r *Report) {
 		}
 	}
 
+	r.Rule("C04.tool-stream-answers-total", "the tools node's stream form answers every call with at least one frame carrying its ToolMessage, an empty answer included — what Invoke gives for the call (shared with C18.stream-answers-total)", 1)
+	toolStreamConverterTotal(w, r, "C04.tool-stream-answers-total")
+
 	// ---- role-uniform (generalises in-out-wiring to every struct and function of the module)
 	r.Rule("C04.role-uniform", "within one function, same-role fields (input* / output*, pre* / post*) of one struct are filled from sources of one role; a lone cross-role assignment is a copy within one object", 20)
 	ruleRoleUniform(w, r, "C04.role-uniform", "compose", "schema", "internal", "flow", "callbacks", "components", "utils")
